@@ -16,10 +16,49 @@ FP = {"f32": (24, 128, ">f", ">I", 8), "f64": (53, 1024, ">d", ">Q", 16)}   # pr
 EXTRA_CXX = ["-fsanitize=float-cast-overflow"]
 
 
-def drivers(vlib):
-    impl = vlib.build_cpp("drv_num", ["drv_num.cpp"], extra=EXTRA_CXX)
-    model = vlib.build_model("num")
-    return impl, model
+CONV_OPS = ("conv", "policy", "policyx", "policys", "sweepconv", "sweeppol")
+
+
+class Impl:
+    """the three binaries built from harness/drv_num.cpp; lines are routed by their op"""
+
+    def __init__(self, conv, text, fast):
+        self.conv, self.text, self.fast = conv, text, fast
+
+    def pick(self, line):
+        return self.conv if line.split(" ", 1)[0] in CONV_OPS else self.text
+
+
+def drivers(vlib, need=("conv", "text")):
+    """build (in parallel) the driver variants the caller needs and the model driver"""
+    from concurrent.futures import ThreadPoolExecutor
+    jobs = {}
+    with ThreadPoolExecutor(max_workers=4) as ex:
+        if "conv" in need:
+            jobs["conv"] = ex.submit(vlib.build_cpp, "drv_num_conv", ["drv_num.cpp"], EXTRA_CXX + ["-DNUM_PART_CONV"])
+        if "text" in need:
+            jobs["text"] = ex.submit(vlib.build_cpp, "drv_num_text", ["drv_num.cpp"], EXTRA_CXX + ["-DNUM_PART_TEXT"])
+        if "fast" in need:
+            jobs["fast"] = ex.submit(vlib.build_cpp, "drv_num_fast", ["drv_num.cpp"], ["-O2", "-DNUM_PART_FP"], (), False)
+        jobs["model"] = ex.submit(vlib.build_model, "num")
+        res = {k: f.result() for k, f in jobs.items()}
+    return Impl(res.get("conv"), res.get("text"), res.get("fast")), res["model"]
+
+
+def run_impl(vlib, impl, lines, **kw):
+    """run lines on the implementation, each on the binary that has its op"""
+    idx = {}
+    for k, l in enumerate(lines):
+        idx.setdefault(impl.pick(l), []).append(k)
+    out = [None] * len(lines)
+    for binary, ks in idx.items():
+        if binary is None:
+            for k in ks:
+                out[k] = "UNAVAILABLE"
+            continue
+        for k, o in zip(ks, vlib.run_driver(binary, [lines[k] for k in ks], **kw)):
+            out[k] = o
+    return out
 
 
 # ------------------------------------------------------------------ values on the wire
@@ -262,7 +301,7 @@ def run_sweeps(vlib, impl, model, sweeps, expand, max_explicit=12):
     first = True
     while pending:
         lines = [sweep_line(t, a, b) for t, a, b, _ in pending]
-        oi = vlib.run_driver(impl, lines, chunk=1 if len(lines) <= 256 else None)
+        oi = run_impl(vlib, impl, lines, chunk=1 if len(lines) <= 256 else None)
         om = vlib.run_driver(model, lines, chunk=1 if len(lines) <= 256 else None)
         if first:
             for (t, a, b, per), y in zip(pending, om):
@@ -347,7 +386,7 @@ def assess(prop, vlib, impl, model, cases, oi, om, sweep_evals, sweeps, classes,
     known_lines = []
     kn = [k for k in vlib.load_known(prop) if k.get("status") == "known"]
     if kn:
-        outs = vlib.run_driver(impl, [k["case"] for k in kn], jobs=1)
+        outs = run_impl(vlib, impl, [k["case"] for k in kn], jobs=1)
         for k, o in zip(kn, outs):
             if norm(o) == k["implementation"] or o == k["implementation"]:
                 known_lines.append("%s: %s [case: %s -> %s]" % (k["id"], k["what"], k["case"], norm(o)))
@@ -367,7 +406,7 @@ def assess(prop, vlib, impl, model, cases, oi, om, sweep_evals, sweeps, classes,
 def replay(rp, vlib, extra_judge=None):
     impl, model = drivers(vlib)
     line = rp["case"]
-    a = norm(vlib.run_driver(impl, [line], jobs=1)[0])
+    a = norm(run_impl(vlib, impl, [line], jobs=1)[0])
     b = vlib.run_driver(model, [line], jobs=1)[0]
     exp, acc = oracle_line(line)
     if exp is None and extra_judge is not None:
